@@ -379,21 +379,82 @@ func runC07(r *Report) {
 
 	// R07d: the reader
 	if fn := r.FnAnchor("R07d", "rueidis.(*pipe)._backgroundRead"); fn != nil {
-		updates := CallSites(fn, "iface:rueidis.CacheStore.Update")
-		r.Anchor("R07d", "commit sites in the reader", len(updates) >= 3)
+		// the reader and the unexported pipe helpers it calls directly (a commit step may be extracted)
+		fns := []*ssa.Function{fn}
+		for _, cs := range Sites(fn, func(in ssa.Instruction) bool { _, ok := in.(*ssa.Call); return ok }) {
+			callee := cs.Call().Common().StaticCallee()
+			if callee != nil && callee.Blocks != nil && strings.HasPrefix(FuncName(callee), "rueidis.(*pipe).") && !isExportedName(callee.Name()) && callee != fn && len(CallSites(callee, "iface:rueidis.CacheStore.Update")) > 0 {
+				dup := false
+				for _, g := range fns {
+					dup = dup || g == callee
+				}
+				if !dup && helperOnlyCalledFrom(p, callee, map[string]bool{FuncName(fn): true}, 1) {
+					fns = append(fns, callee)
+				}
+			}
+		}
+		var updates []Site
+		nUpd := 0
+		for _, g := range fns {
+			us := CallSites(g, "iface:rueidis.CacheStore.Update")
+			nUpd += len(us)
+			if g == fn {
+				updates = us
+			} else {
+				nUpd += len(p.Callers(FuncName(g))) - 1 // one helper commit serves each of its call sites
+			}
+		}
+		r.Anchor("R07d", "commit sites in the reader", nUpd >= 3)
 		nSet := 0
-		for _, s := range CallSites(fn, "rueidis.(*RedisMessage).setExpireAt") {
+		var setSites []Site
+		for _, g := range fns {
+			setSites = append(setSites, CallSites(g, "rueidis.(*RedisMessage).setExpireAt")...)
+		}
+		for _, s := range setSites {
 			arg := s.Call().Common().Args[1]
 			if c, ok := arg.(*ssa.Call); ok && CalleeName(c) == "iface:rueidis.CacheStore.Update" {
 				continue // writes the store's answer back into the reply handed to the caller
+			} else if ok && c.Call.StaticCallee() != nil {
+				// ... or the answer a commit helper hands back
+				viaHelper := false
+				for _, g := range fns[1:] {
+					if g != c.Call.StaticCallee() {
+						continue
+					}
+					viaHelper = true
+					for _, b := range g.Blocks {
+						if ret, isr := b.Instrs[len(b.Instrs)-1].(*ssa.Return); isr {
+							for _, rv := range ret.Results {
+								if uc, isc := rv.(*ssa.Call); !isc || CalleeName(uc) != "iface:rueidis.CacheStore.Update" {
+									viaHelper = false
+								}
+							}
+						}
+					}
+				}
+				if viaHelper {
+					continue
+				}
 			}
 			nSet++
 			// pttl >= 0
 			var pttl ssa.Value
+			isIntlen := func(x ssa.Value) bool { // the PTTL reply's integer, or a helper parameter that always receives one
+				vals, _, ok := paramArgs(p, x)
+				if !ok {
+					return false
+				}
+				for _, v := range vals {
+					if !strings.HasSuffix(Desc(v), ".intlen") {
+						return false
+					}
+				}
+				return true
+			}
 			okG := Guarded(s.Block, func(g Guard) bool {
 				x, op, y, ok := CmpGuard(g)
 				k, isc := ConstInt(y)
-				if ok && isc && ((op == token.GEQ && k == 0) || (op == token.GTR && k == -1)) && strings.HasSuffix(Desc(x), ".intlen") {
+				if ok && isc && ((op == token.GEQ && k == 0) || (op == token.GTR && k == -1)) && isIntlen(x) {
 					pttl = x
 					return true
 				}
@@ -403,10 +464,15 @@ func runC07(r *Report) {
 			okV := false
 			if um, ok := arg.(*ssa.Call); ok && CalleeName(um) == "time.(Time).UnixMilli" {
 				if add, ok := um.Call.Args[0].(*ssa.Call); ok && CalleeName(add) == "time.(Time).Add" {
-					nowc, isNow := add.Call.Args[0].(*ssa.Call)
-					if isNow && CalleeName(nowc) == "time.Now" {
-						d := Desc(add.Call.Args[1])
-						okV = pttl != nil && DependsOn(add.Call.Args[1], func(v ssa.Value) bool { return v == pttl || Same(v, pttl) }) && strings.Contains(d, "* 1000000")
+					nows, _, okN := paramArgs(p, add.Call.Args[0])
+					d := Desc(add.Call.Args[1])
+					okV = okN && len(nows) > 0 && pttl != nil && DependsOn(add.Call.Args[1], func(v ssa.Value) bool { return v == pttl || Same(v, pttl) }) && strings.Contains(d, "* 1000000")
+					for _, nv := range nows {
+						nowc, isNow := nv.(*ssa.Call)
+						if !isNow || CalleeName(nowc) != "time.Now" || nowc.Parent() != fn {
+							okV = false
+							continue
+						}
 						// time.Now() is taken after the reply was read
 						if rd := CallSites(fn, "rueidis.readNextMessage"); len(rd) > 0 {
 							okV = okV && reachesBlock(rd[0].Block, nowc.Block()) && !nowc.Block().Dominates(rd[0].Block)
@@ -416,7 +482,7 @@ func runC07(r *Report) {
 			}
 			r.ObSite("R07d", s, "server-expiry-on-arrival", okG && okV, "the server expiry is set only for pttl >= 0, as time.Now() (taken after the reply arrived) plus pttl milliseconds")
 		}
-		r.Anchor("R07d", "server expiry computations in the reader", nSet >= 2)
+		r.Anchor("R07d", "server expiry computations in the reader", nSet >= 1)
 		// static TTL path sets no server expiry before Update
 		for _, u := range updates {
 			static := Guarded(u.Block, func(g Guard) bool {
